@@ -92,6 +92,7 @@ static std::vector<std::array<uint64_t, 8>> reg_vectors(bool th) {
 
 static std::string check_key(const std::string& key, Native& nat, const std::vector<std::array<uint64_t, 8>>& rv, vf::Result& R, spec::GenStats& gs, bool native) {
 	randomx::Blake2Generator gen(key.data(), key.size()); spec::BlakeGenerator mg(key.data(), key.size()); spec::Params P = spec::Params::production();
+	std::vector<uint64_t> rcp;   // as in initCache: ONE reciprocal table for the 8 programs of a key, so the indices of the later programs exceed 255 for some keys
 	for (int i = 0; i < RANDOMX_CACHE_ACCESSES; ++i) {
 		randomx::SuperscalarProgram prog; prog.setSize(0);
 		randomx::generateSuperscalar(prog, gen);
@@ -104,8 +105,9 @@ static std::string check_key(const std::string& key, Native& nat, const std::vec
 		R.n["programs"]++; R.n["instructions"] += prog.getSize(); R.mx["program_size"] = std::max<uint64_t>(R.mx["program_size"], prog.getSize());
 		if (!native) continue;
 		// as initCache does: replace IMUL_RCP immediates by indices into the reciprocal cache
-		std::vector<uint64_t> rcp; randomx::SuperscalarProgram cp = prog;
+		randomx::SuperscalarProgram cp = prog;
 		for (uint32_t j = 0; j < cp.getSize(); ++j) if ((SuperscalarInstructionType)cp(j).opcode == SuperscalarInstructionType::IMUL_RCP) { rcp.push_back(randomx_reciprocal(cp(j).getImm32())); cp(j).setImm32((uint32_t)rcp.size() - 1); }
+		R.mx["reciprocal_table_size"] = std::max<uint64_t>(R.mx["reciprocal_table_size"], rcp.size());
 		nat.load(cp, rcp);
 		for (auto& v : rv) {
 			uint64_t a[8], b[8], c[8]; memcpy(a, v.data(), 64); memcpy(b, v.data(), 64); memcpy(c, v.data(), 64);
@@ -154,7 +156,7 @@ int main(int argc, char** argv) {
 	for (const char* p : { "path_thrown_away", "path_stall_cycles", "path_r5_source_rule", "path_mul_port_saturation", "path_size_cap", "path_chained_mul", "path_group_aborted", "path_port_map_exhausted" }) if (total.n[p] == 0) never.push(p);
 	ev.coverage.set("evaluations", (unsigned long long)(total.n["programs"] + total.n["executions"])).set("distinct_nontrivial", (unsigned long long)total.n["programs"])
 		.set("exhaustive", !total.incomplete).set("generator_paths_never_reached", never)
-		.set("rule", "keys: the key-shape alphabet, the empty key, all 256 one-byte keys and (thorough) all 65536 two-byte keys (quick: 4096 of them); for each of the 8 programs of a key: generation terminates, Table 6.1.1 well-formedness checked on the repository's program object, every field and the address register equal the specification generator; executeSuperscalar == x86 code generated by generateSuperscalarHash (program under test first, seven empty programs, all-zero cache image so the interleaved XORs are identities, entered through a trampoline that loads r8-r15) == model executor on the register-vector alphabet. distinct = programs");
+		.set("rule", "keys: the key-shape alphabet, the empty key, all 256 one-byte keys and (thorough) all 65536 two-byte keys (quick: 4096 of them); for each of the 8 programs of a key: generation terminates, Table 6.1.1 well-formedness checked on the repository's program object, every field and the address register equal the specification generator; executeSuperscalar == x86 code generated by generateSuperscalarHash (program under test first, seven empty programs, all-zero cache image so the interleaved XORs are identities, one reciprocal table per key filled across its 8 programs as initCache does, entered through a trampoline that loads r8-r15) == model executor on the register-vector alphabet. distinct = programs");
 	ev.assumptions = { "chapter 6 under-specifies the order of random-number consumption; the model generator is a second implementation frozen in /verif (it detects changes, it cannot certify the generator against prose)", "keys reach the generator only through Blake2b, so the key set is a large deterministic population, not a partition proof" };
 	return vf::finish(args, total, ev, true, true);
 }
